@@ -14,6 +14,15 @@ def pow_mod(it, x, y, m, node):
             it.raise_(ValueError, node)
     if isinstance(m, int) and m == 0:
         it.raise_(ValueError, node)
+    if isinstance(y, int) and 0 <= y <= 4 and not isinstance(m, int) or (isinstance(y, int) and 0 <= y <= 4 and isinstance(m, int) and m > 0):
+        # small constant exponent: the power itself (exact), reduced
+        r = z3.IntVal(1)
+        for _ in range(y):
+            r = r * zi(x)
+        if isinstance(m, int):
+            return mk_int(r % m)
+        if it.ctx.valid(zi(m) > 0):
+            return mk_int(r % zi(m))
     r = F_powmod(zi(x), zi(y), zi(m))
     it.ctx.assume(z3.Implies(zi(m) > 0, z3.And(r >= 0, r < zi(m))))
     return mk_int(r)
